@@ -255,6 +255,8 @@ def round_trip(expr: Any, mode: str, render: Callable[[Any], str], parse: Callab
     try:
         rt.text = render(expr)
     except Exception as exc:  # pylint: disable=broad-except
+        if isinstance(exc, ValueError) and "integer string conversion" in str(exc):
+            raise  # CPython's 4300-digit limit on printing integers, not the printer: the case is discarded by the caller
         rt.status, rt.detail = "crash", f"{type(exc).__name__}: {exc}"
         return rt
     try:
@@ -425,6 +427,11 @@ def judge_generated(case: dict[str, Any], mode: str, render: Any, parse: Any, we
         return _judge_generated(case, mode, render, parse, wellformed)
     except _Hang:
         return [], {"discard": "hang-guard"}
+    except ValueError as exc:
+        # CPython refuses to print integers of more than 4300 digits (a power tower in the generated tree): no rendering to judge
+        if "integer string conversion" not in str(exc):
+            raise
+        return [], {"discard": "huge-integer"}
     finally:
         signal.alarm(0)
         signal.signal(signal.SIGALRM, old)
